@@ -400,6 +400,8 @@ class TranslationCorrection(darsia.BaseCorrection):
         Returns:
             array: Corrected image.
         """
+        if not self.active:
+            return img
         (h, w) = img.shape[:2]
         translated_img = cv2.warpAffine(img, self.translation, (w, h))
         return translated_img
